@@ -4,8 +4,11 @@ import (
 	"bytes"
 	"errors"
 	"fmt"
+	"github.com/reactivego/ivg/raster"
+	"github.com/reactivego/ivg/raster/vec"
 	"image"
 	"image/color"
+	"image/draw"
 	"math"
 	"os"
 	"strings"
@@ -474,10 +477,28 @@ func suiteC03(s *Shard, n int) {
 				src = r.Mutate(corpus[r.Intn(len(corpus))], nil)
 			}
 		}
-		obs := s.EmitRun(DecCase(nil, src))
+		line := DecCase(nil, src)
+		obs := s.EmitRun(line)
 		s.EmitRun(SpecCase(src))
 		s.Sig("dec:" + obsSig(obs))
 		s.Count("stream")
+		// the verdict does not depend on who listens: Decode with a nil Destination (validation only — the decoder guards
+		// every delivery with `dst != nil`) accepts and rejects exactly what it accepts and rejects with a Destination
+		// (round 5, C03-J: with nobody listening the instruction stream was no longer read at all)
+		_, errRec, p1 := Decode(nil, src)
+		errNil, p2 := func() (e error, pn string) {
+			defer func() {
+				if p := recover(); p != nil {
+					pn = fmt.Sprint(p)
+				}
+			}()
+			return decode.Decode(nil, src), ""
+		}()
+		if p1 != "" || p2 != "" {
+			s.Fail("C02.no-panic", line, p1+p2)
+		} else if ErrStr(errRec) != ErrStr(errNil) {
+			s.Fail("C03.verdict-independent-of-destination", line, fmt.Sprintf("with a recording Destination: %q, with a nil Destination: %q", ErrStr(errRec), ErrStr(errNil)))
+		}
 	}
 }
 
@@ -1756,7 +1777,68 @@ func suiteC15(s *Shard, n int) {
 		for _, f := range monitorGradient(line, rect, smp, cs) {
 			s.Fail(f.Clause, f.Case, f.Detail)
 		}
+		if rect.Dx()*rect.Dy() <= 6400 {
+			for _, f := range monitorGradientPixels(line, rect, cs, r.Chance(50)) {
+				s.Fail(f.Clause, f.Case, f.Detail)
+			}
+		}
 	}
+}
+
+// monitorGradientPixels: the paint as it ARRIVES in pixels through the repository's own rasteriser adapter (raster/vec).
+// The path is the whole viewBox, so every pixel of the rectangle is fully covered; drawn with draw.Src into an image of
+// its own, each pixel away from the border must be the colour the paint has there (what `At` answers, in 8 bits) — in
+// particular transparent where spread "none" says so, also when all stops have the same colour (round 5, C15-I: such a
+// gradient replaced by a uniform colour in vec.Draw).
+func monitorGradientPixels(line string, rect image.Rectangle, cs []Call, nrgba bool) (fails []Failure) {
+	defer func() {
+		if p := recover(); p != nil {
+			fails = append(fails, Failure{"C15.no-panic", line, fmt.Sprint(p)})
+		}
+	}()
+	for _, c := range cs {
+		if c.Name == "rast" {
+			return nil // one rectangle only here
+		}
+	}
+	img := image.NewRGBA(rect)
+	rz := vec.NewRasterizer(img)
+	rz.DrawOp = draw.Src
+	var z render.Renderer
+	z.SetRasterizer(rz, rect)
+	rec := &RecRaster{}
+	var z2 render.Renderer
+	z2.SetRasterizer(rec, rect)
+	for _, c := range cs {
+		if c.IsDest() {
+			c.Apply(&z)
+			c.Apply(&z2)
+		}
+	}
+	if len(rec.Paints) != 1 {
+		return nil
+	}
+	src := rec.Paints[0]
+	if _, ok := src.(raster.GradientConfig); !ok {
+		return nil
+	}
+	for y := rect.Min.Y + 1; y < rect.Max.Y-1; y++ {
+		for x := rect.Min.X + 1; x < rect.Max.X-1; x++ {
+			// Draw's source point (0,0) is aligned with the rectangle's corner: the paint is evaluated in rectangle-relative pixels
+			want := color.RGBAModel.Convert(src.At(x-rect.Min.X, y-rect.Min.Y)).(color.RGBA)
+			got := img.RGBAAt(x, y)
+			d := func(a, b uint8) int {
+				if a > b {
+					return int(a - b)
+				}
+				return int(b - a)
+			}
+			if d(got.R, want.R) > 1 || d(got.G, want.G) > 1 || d(got.B, want.B) > 1 || d(got.A, want.A) > 1 {
+				return append(fails, Failure{"C15.pixels-are-the-paint", line, fmt.Sprintf("pixel (%d,%d) of %v is %v, the paint there is %v", x, y, rect, got, want)})
+			}
+		}
+	}
+	return nil
 }
 
 // gridGradient: viewBox (0,0)-(32,32) rendered at 32x32 (scale exactly 1) with matrix a=1/8, c=-1/16, so
